@@ -51,8 +51,13 @@ def run(res, tier, seed):
 
         first = rng.choice([1, 3])
 
+        dup_numbers = (n == 60)      # one plan (the NOAA-17 pass) has repeated scan line numbers
+
         def chans(sw, hi=None):
             lines = l1b.default_lines(fmt, n, start, counts=wb, switch=sw, first=first)
+            if dup_numbers:      # the on-file line counter stalls for a few records (numbers are not unique): selection is per record
+                for i_ in range(10, min(n, 40), 6):
+                    lines[i_]["n"] = lines[i_ - 1]["n"]
             for i_, l_ in enumerate(lines):
                 if sw[i_] != 0:         # while 3a is on (or in transition) the channel-3 calibration views do not see the 3b detector
                     l_["ict"] = [0 if j % 3 == 0 else v for j, v in enumerate(l_["ict"])]
